@@ -522,6 +522,48 @@ func runC16(c *ctx, r *Report) error {
 			r.hist("json:empty-list")
 		}
 	}
+	// (5) every diagnostic is built by errorAt / errorfAt (AL.C16M.every_message_escaped, a fact regenerated from the source);
+	// both through RuleBase.Error / Errorf, the exported way into them: the message a rule hands over vs what the diagnostic
+	// carries, against the model's escaper (op `escape`, AL.C16M.escape_no_linebreak) — and no line break in it
+	nEsc := 800
+	if !c.quick {
+		nEsc = 30000
+	}
+	for i := 0; i < nEsc; i++ {
+		msg := jstr(rng.Intn(10))
+		rb := actionlint.NewRuleBase("kind", "desc")
+		pos := &actionlint.Pos{Line: 1 + rng.Intn(5), Col: 1 + rng.Intn(9)}
+		via := "Error"
+		if rng.Intn(2) == 0 {
+			rb.Error(pos, msg)
+		} else {
+			via = "Errorf"
+			rb.Errorf(pos, "%s", msg)
+		}
+		r.Evaluations++
+		cs := Case{Op: "escape", Input: map[string]string{"message": strconv.Quote(msg), "via": via}}
+		errs := rb.Errs()
+		if len(errs) != 1 {
+			r.finding("escape-count", fmt.Sprintf("RuleBase.%s recorded %d diagnostics for one call", via, len(errs)), cs)
+			continue
+		}
+		got := errs[0].Message
+		if strings.ContainsAny(got, "\n\r") {
+			r.finding("message-line-break", "a diagnostic's message contains a line break: "+strconv.Quote(got), cs)
+		}
+		if utf8.ValidString(msg) {
+			b.add("escape "+hx(msg), hx(got), cs)
+		}
+		if strings.ContainsAny(msg, "\n\r") {
+			r.nontrivial("escape:" + msg)
+			r.hist("escape:had-line-break")
+		} else {
+			r.hist("escape:clean")
+			if got != msg {
+				r.finding("escape-alters-clean-text", "a message without line breaks is altered on its way into the diagnostic: "+strconv.Quote(got), cs)
+			}
+		}
+	}
 	r.sample(map[string]string{"op": "matcher", "line": "a.yml:1:2: character '[' is invalid [glob]", "impl": matchCanon(re, "a.yml:1:2: character '[' is invalid [glob]")})
 	r.sample(map[string]string{"op": "lint-render", "payload": `a\nb`, "sites": "25 echo sites of the template"})
 	_, err = b.flush(c, r)
